@@ -543,5 +543,25 @@ def generate():
     gen.write_if_changed(os.path.join(WRAP, "Gen_failfs.v"), body)
 
 
-if generate not in gen.GENERATORS:
-    gen.GENERATORS.append(generate)
+def generate_and_compile():
+    """Regenerate, then bring the .vo of the generated tables up to date so that an extraction
+    that runs without a full `make` (bin/check --replay) never sees a stale table."""
+    generate()
+    wvo = os.path.join(WRAP, "Wrapper.vo")
+    if not os.path.exists(wvo):
+        return
+    for n in ("Gen_iface", "Gen_rofs", "Gen_failfs"):
+        v = os.path.join(WRAP, n + ".v")
+        vo = os.path.join(WRAP, n + ".vo")
+        if os.path.exists(v) and (not os.path.exists(vo) or os.path.getmtime(vo) < os.path.getmtime(v)
+                                  or os.path.getmtime(vo) < os.path.getmtime(wvo)):
+            subprocess.run(["coqc", "-Q", "theories", "Avfs", os.path.join("theories", "Wrap", n + ".v")], cwd=gen.COQ,
+                           stdout=subprocess.PIPE, stderr=subprocess.STDOUT, timeout=600)
+            try:    # force a fresh extraction: the model embeds the tables
+                os.remove(os.path.join(ROOT, "ml", "model.ml"))
+            except OSError:
+                pass
+
+
+if generate_and_compile not in gen.GENERATORS:
+    gen.GENERATORS.append(generate_and_compile)
